@@ -84,6 +84,29 @@ def rule_futex_key(rep, rid_prefix, prog, pairs=FUTEX_PAIRS):
     rid = rep.rule(rid_prefix + "-FK", "sleep/wake pairing: the blocking side and the waking side of each primitive pass the same futex opflags (private vs shared key); "
                    "the kernel matches waiters and wakers by key, a mismatch makes every wake-up find nobody", floor=4)
     k = consts.get(["FUTEX_PRIVATE_FLAG"], unit="shims/lock", includes=("linux/futex.h",))
+    def sys_ops(fn, env, depth=0):
+        """values of the futex op word (operation | opflags) that reach the kernel from calls made in fn, with fn's arguments bound by env: followed through
+        the library's futex wrappers by constant propagation of the call arguments"""
+        out = []
+        if fn is None or depth > 5:
+            return [None]
+        for c in fn.all_insts():
+            if c.op != "call" or not c.callee or c.callee.startswith("llvm."):
+                continue
+            if c.callee == "syscall":
+                out.append(ceval(fn, c.ops[2], env) if len(c.ops) > 2 else None)
+            elif "futex" in c.callee:
+                g = prog.fn(c.callee, required=False)
+                if g is None:
+                    out.append(None)
+                    continue
+                env2 = {}
+                for n_, o in enumerate(c.ops):
+                    v = ceval(fn, o, env)
+                    if v is not None:
+                        env2[("a", n_)] = v
+                out += sys_ops(g, env2, depth + 1)
+        return out
     def flags(fname):
         fn = prog.fn(fname, required=False)
         if fn is None:
@@ -92,8 +115,15 @@ def rule_futex_key(rep, rid_prefix, prog, pairs=FUTEX_PAIRS):
         out = []
         for c in fn.all_insts():
             if c.op == "call" and "futex" in (c.callee or "") and not (c.callee or "").startswith("llvm."):
-                last = c.ops[-1]
-                out.append((c, last[1] if last[0] == "c" else None))
+                g = prog.fn(c.callee, required=False)
+                env2 = {}
+                for n_, o in enumerate(c.ops):
+                    v = ceval(fn, o, {})
+                    if v is not None:
+                        env2[("a", n_)] = v
+                vals = sys_ops(g, env2) if g is not None else [None]
+                for v in vals or [None]:
+                    out.append((c, None if v is None else (v & k["FUTEX_PRIVATE_FLAG"])))
         return fn, out
     n = 0
     for w, s_ in pairs:
